@@ -162,7 +162,8 @@ class ExprMixin:
              'functools', 'inspect', 'tag_type', 'config', 'config_lib', 'logging',
              'itertools', 'threading', 'importlib', 'mutate_buildable', 'tagging',
              'building', 'reraised_exception', 'arg_factory', 'partial', 'typing',
-             'types', 'sys', 'abc', 'traceback', 'os', 're', 'json', 'enum'}
+             'types', 'sys', 'abc', 'traceback', 'os', 're', 'json', 'enum', 'utils', 'epath',
+             'serialization', 'auto_config', 'special_overrides', 'importlib', 'printing'}
 
   def ex_Name(self, e, st):
     n = e.id
